@@ -20,7 +20,9 @@ With s = the logical time at which the stop call returned, refuted by:
      does not run to completion;
   g  the stop call itself raises;
   h  after s the script goes back to waiting for a clock tick more than once
-     (the delay / time-of-day wait in progress was not abandoned).
+     (the delay / time-of-day wait in progress was not abandoned);
+  i  after s the job thread stays blocked (unable to run, as opposed to merely
+     not scheduled) for more than 5 virtual seconds + 2 ticks.
 """
 import sys
 
@@ -65,9 +67,11 @@ RULE = ('one case = (script shape, stop entry point, stop position, schedule '
         'choices.')
 ASSUMPTIONS = [
     'RLock.acquire(timeout=1.0) never times out while the owner can run',
-    'promptness bound: 5000 scheduling steps of the job thread',
+    'promptness bound: 5000 scheduling steps of the job thread and 5 virtual '
+    'seconds + 2 ticks of being blocked after the stop returned',
 ]
 OWN_STEPS = 5000
+PROMPT_SECONDS = 5.0
 DEVICES = [dict(label='A', group='G', location='P'),
            dict(label='B', group='G', location='P')]
 SHAPES = {
@@ -159,11 +163,14 @@ def run_scenario(seed, shape, entry, delay_steps, tick, policy, depth,
         res['position_at_return'] = '{}|{}'.format(
             rec1.state, rec1.loc.split(':')[0] if rec1.loc else '?')
         res['own_steps_at_stop'] = rec1.steps
+        blocked_at_stop = rec1.blocked_time
         s.block_until(lambda: rec1.done or
                       rec1.steps - res['own_steps_at_stop'] > OWN_STEPS,
                       'stopped job')
         res['job1_done'] = rec1.done
         res['job1_end_step'] = s.steps
+        res['blocked_after_stop'] = rec1.blocked_time - blocked_at_stop
+        res['tick'] = tick
         res['own_steps_used'] = rec1.steps - res['own_steps_at_stop']
         res['log_at_job1_end'] = len(simnet.LOG)
         if rec1.done:
@@ -263,6 +270,16 @@ def check(ctx, res, shape, entry, with_successor, replay):
                           '{}: the script went back to waiting for a tick {} '
                           'times after the stop had returned'.format(
                               desc, len(waits)), replay)
+            return False
+        # i: promptness in virtual time, counted only while the job thread was
+        # unable to run (a thread merely passed over by the scheduler does not
+        # count): a stopped script must be woken within seconds, not left to
+        # sit out its delay
+        if res.get('blocked_after_stop', 0) > PROMPT_SECONDS + 2 * res['tick']:
+            ctx.violation('i:blocked-long-after-stop',
+                          '{}: after the stop returned the job thread stayed '
+                          'blocked for {:.1f} virtual seconds'.format(
+                              desc, res['blocked_after_stop']), replay)
             return False
         # the instruction in progress: the one started before the stop, or --
         # when the stop found the job thread inside the run loop, between its
